@@ -246,7 +246,7 @@ class Executor:
             masks = [np.array(m['b'], dtype=bool) if 'b' in m else np.array(m['i'], dtype=np.intp) for m in st['masks']]
             r = a.copy(deep=True)
             axes = st['axes']
-            if via == 'single' and len(axes) == 1:
+            if via == 'single' and len(axes) == 1 and len(masks) == 1:
                 r.iproject(masks[0], axes[0])
             else:
                 r.iproject(masks, axes)
@@ -275,7 +275,7 @@ class Executor:
                     kw['pipes'] = pipes[0]
                 if 'new_axes' in kw:
                     kw['new_axes'] = kw['new_axes'][0]
-                return a.combine_legs(cl[0], qconj=qc[0], **kw), extra
+                return a.combine_legs(cl[0], qconj=(qc[0] if len(qc) == 1 else qc), **kw), extra
             if pipes is not None:
                 kw['pipes'] = pipes
             return a.combine_legs(cl, qconj=(qc[0] if len(qc) == 1 else qc), **kw), extra
@@ -692,6 +692,16 @@ class Executor:
             built, dumps = self.build_aux(vals, st)
             if dumps:
                 rec['built'] = dumps
+            if self.risky(ins):
+                sig = self.probe_in_child(vals, st, built)
+                if sig is not None:
+                    rec['res'] = {'error': 'Crash:signal%d' % sig, 'msg': 'interpreter killed by signal %d' % sig}
+                    rec['oracle'].append([f'c01.{self.opname(st)}.interpreter-crash',
+                                          f'the interpreter dies with signal {sig} (inputs contain a block of size 0)'])
+                    vals.append(None)
+                    rec['ins'] = [bool(x._qdata_sorted) if isinstance(x, npc.Array) else None for x in ins]
+                    out['steps'].append(rec)
+                    continue
             try:
                 res, extra = self.run(vals, st, built)
             except Skip:
@@ -703,6 +713,13 @@ class Executor:
                 rec['res'] = {'error': err_class(e), 'msg': str(e)[:200]}
                 vals.append(None)
                 rec['ins'] = [bool(x._qdata_sorted) if isinstance(x, npc.Array) else None for x in ins]
+                if not st.get('malformed') and len(dens) == len(ins) and st['op'] not in ('combine_legs', 'split_legs',
+                                                                                          'sort_legcharge'):
+                    try:  # does numpy accept the same call on the dense operands?
+                        exp, _, _ = self.expected(st, ins, dens, None, {})
+                        rec['numpy_accepts'] = exp is not None
+                    except Exception:
+                        rec['numpy_accepts'] = False
                 out['steps'].append(rec)
                 continue
             vals.append(res if isinstance(res, npc.Array) else None)
@@ -715,6 +732,28 @@ class Executor:
             out['steps'].append(rec)
         out['entered'] = sorted(self.entered)
         return out
+
+    def risky(self, ins):
+        """inputs with a stored block of size 0: known to be able to kill the interpreter (compiled tensordot)"""
+        try:
+            return any(isinstance(x, self.npc.Array) and any(t.size == 0 for t in x._data) for x in ins)
+        except Exception:
+            return False
+
+    def probe_in_child(self, vals, st, built):
+        """run the step in a forked child; returns the killing signal number, or None if the child survived"""
+        import os
+        pid = os.fork()
+        if pid == 0:
+            try:
+                try:
+                    self.run(vals, st, built)
+                except BaseException:
+                    pass
+            finally:
+                os._exit(0)
+        _, status = os.waitpid(pid, 0)
+        return os.WTERMSIG(status) if os.WIFSIGNALED(status) else None
 
     def record(self, rec, st, ins, dens, res, extra):
         npc, io = self.npc, self.io
